@@ -155,6 +155,32 @@ func init() {
 				}
 			}
 		}
+		// the application payload (a gopacket.Payload layer, boxed by value): its length is what FixLengths turns into the
+		// UDP length / IPv6 payload length on the wire (ser.paylen; -1 when no Payload layer is present)
+		if gp := ex.w.pkgs["github.com/google/gopacket"]; gp != nil {
+			if po := gp.Pkg.Scope().Lookup("Payload"); po != nil {
+				ptag := num(int64(ex.w.typeID(po.Type())))
+				paylen := "(- 1)"
+				for i := int64(0); i < n.Int64(); i++ {
+					e := ex.sliceLoad(st, ls, num(i))
+					is := eq(e.L[0], ptag)
+					if is == "false" {
+						continue
+					}
+					if c1, ok1 := isConstTerm(e.L[0]); ok1 {
+						if c2, _ := isConstTerm(ptag); c2 != nil && c1.Cmp(c2) != 0 {
+							continue
+						}
+					}
+					pv := ex.unbox(st, e, po.Type())
+					if len(pv.L) >= 3 {
+						paylen = ite(is, pv.L[2], paylen)
+					}
+				}
+				ex.registerKey("X|ser.paylen", sInt)
+				ex.setGhost(st, "ser.paylen", paylen)
+			}
+		}
 		ex.setGhost(st, "ser.pseudo", pseudo)
 		ex.setGhost(st, "ser.minlen", minlen)
 		e := ex.freshVal(errorT(), st, "sererr")
